@@ -308,6 +308,24 @@ func (c *Ctx) producibleTokens() map[int64]bool {
 			if !ok || typeName(fa.X.Type()) != "Scanner" || fieldName(fa) != "token" {
 				return
 			}
+			// a token taken from a constant table (map literal indexed by the character)
+			var lk *ssa.Lookup
+			switch x := st.Val.(type) {
+			case *ssa.Lookup:
+				lk = x
+			case *ssa.Extract:
+				lk, _ = x.Tuple.(*ssa.Lookup)
+			}
+			if lk != nil {
+				if tab, ok := fo.constTable(&FoldResult{Fn: f, Vals: map[ssa.Value]LV{}}, lk.X); ok {
+					for _, lv := range tab {
+						if lv.K == lConst && lv.C.Kind() == constant.Int {
+							n, _ := constant.Int64Val(lv.C)
+							out[n] = true
+						}
+					}
+				}
+			}
 			for _, rt := range plainOrigins.Roots(st.Val) {
 				switch rt.Kind {
 				case "const":
